@@ -4,7 +4,7 @@ The analysed code base is goto-free, so the control-flow graph is realised as
 a walk over the statement tree carrying a symbolic state.  Loops contribute 0
 and 1 iterations; every ``try`` contributes its normal path plus one path per
 handler.  Local variables are inlined into later conditions / outcomes;
-results of calls are named by fresh symbols (``@vN``) whose definitions are
+results of calls are named by fresh symbols (``SYM_vN``) whose definitions are
 kept in ``Enumerator.defs``.  Conditions are split into primitive short-circuit
 branches; repeated primitive conditions on one path are kept consistent.
 
@@ -111,7 +111,7 @@ class State:
 
 
 def is_sym(node):
-    return isinstance(node, ast.Name) and node.id.startswith('@')
+    return isinstance(node, ast.Name) and node.id.startswith('SYM_')
 
 
 def const_truth(node):
@@ -250,7 +250,7 @@ class Enumerator:
     # -------------------------------------------------------------- symbols
     def fresh(self, definition, hint='v'):
         self._n += 1
-        s = '@%s%d' % (hint, self._n)
+        s = 'SYM_%s%d' % (hint, self._n)
         self.defs[s] = definition
         return ast.Name(id=s, ctx=ast.Load())
 
